@@ -51,7 +51,7 @@ func selectTransactionsFromBunches(session SelectionSession, bunches []bunchOfTr
 		item := heap.Pop(transactionsHeap).(*transactionsHeapItem)
 		gasLimit := item.currentTransaction.Tx.GetGasLimit()
 
-		if accumulatedGas+gasLimit > gasRequested {
+		if gasLimit > gasRequested-accumulatedGas {
 			break
 		}
 		if len(selectedTransactions) >= maxNum {
